@@ -12,9 +12,15 @@ import (
 const verifPkg = harnessModule + "/verif"
 
 func registerVerif(e *Engine, reg func(string, intrinsic)) {
+	cliAlias := map[string]string{"IntRange": "vIntRange", "Bool": "vBool", "Concrete": "vConcrete", "Assert": "vAssert", "Cover": "vCover", "Obs": "vObs", "Assume": "vAssume"}
 	v := func(name string, h func(ex *Exec, a []Value) Value) {
 		reg(verifPkg+"."+name, func(ex *Exec, fn *ssa.Function, a []Value) Value { return h(ex, a) })
+		if alias, ok := cliAlias[name]; ok {
+			// the C16 harness lives in package main of cmd/pql (overlay) and carries its own copies
+			reg(repoModule+"/cmd/pql."+alias, func(ex *Exec, fn *ssa.Function, a []Value) Value { return h(ex, a) })
+		}
 	}
+	reg(repoModule+"/cmd/pql.vInEngine", func(ex *Exec, fn *ssa.Function, a []Value) Value { return true })
 	v("Byte", func(ex *Exec, a []Value) Value {
 		t := ex.freshVar("in", 8)
 		ex.inputs = append(ex.inputs, inputRec{Kind: "byte", Terms: []*Term{t}})
